@@ -47,6 +47,9 @@ type stressRes struct {
 	Overlap    int64 `json:"overlap"`    // invocations of one update handler that overlapped in time
 	Regress    int64 `json:"regress"`    // invocations of one update handler that saw an older cluster set after a newer one
 	Probes     int64 `json:"probes"`     // probe handlers registered
+	Behind     int64 `json:"behind"`     // lookups that exposed a cluster set newer than what a handler registered before the lookup had seen
+	Shrinks    int64 `json:"shrinks"`    // requests of a type listing fewer names than the previous request of that type on the same stream (no evictions here)
+	WireStale  int64 `json:"wire_stale"` // types whose last request on the live stream differs from the interest set once everything is quiet
 	Unfinished bool  `json:"unfinished"` // some goroutine had not returned 10 s after the stop signal
 }
 
@@ -99,6 +102,22 @@ func rdsResponse(ver int, names []string) *discoveryv3.DiscoveryResponse {
 	return &discoveryv3.DiscoveryResponse{VersionInfo: fmt.Sprint(ver), Nonce: fmt.Sprint("r", ver), TypeUrl: xdsresource.RouteTypeURL, Resources: anys}
 }
 
+func sameSet(a, b []string) bool {
+	if len(a) != len(b) {
+		return false
+	}
+	m := map[string]bool{}
+	for _, x := range a {
+		m[x] = true
+	}
+	for _, x := range b {
+		if !m[x] {
+			return false
+		}
+	}
+	return len(m) == len(b)
+}
+
 func init() {
 	engines["stress"] = func(raw json.RawMessage) (interface{}, error) {
 		var c stressCase
@@ -119,6 +138,9 @@ func init() {
 		setTarget(m)
 		defer setTarget(nil)
 		names := []string{"c0", "c1", "c2", "c3", "c4", "c5"}
+		type probe struct{ last, ready int64 }
+		var probesMu sync.Mutex
+		var probes []*probe
 		stop := make(chan struct{})
 		var wg sync.WaitGroup
 		nworkers := 0
@@ -152,6 +174,16 @@ func init() {
 				k := kinds[r.Intn(len(kinds))]
 				ctx, cancel := context.WithTimeout(context.Background(), time.Duration(r.Intn(8))*time.Millisecond)
 				var gr getRet
+				var ready []*probe
+				if k.name == "cds" {
+					probesMu.Lock()
+					for _, p := range probes {
+						if atomic.LoadInt64(&p.ready) == 1 {
+							ready = append(ready, p)
+						}
+					}
+					probesMu.Unlock()
+				}
 				func() {
 					defer func() {
 						if e := recover(); e != nil {
@@ -161,6 +193,16 @@ func init() {
 					gr.v, gr.err = m.Get(ctx, k.rt, names[r.Intn(len(names))])
 				}()
 				cancel()
+				if cl, ok := gr.v.(*xdsresource.ClusterResource); ok && cl != nil && gr.err == nil {
+					var seen int64
+					if _, err := fmt.Sscanf(cl.EndpointName, "v%d", &seen); err == nil {
+						for _, p := range ready {
+							if atomic.LoadInt64(&p.last) < seen {
+								atomic.AddInt64(&res.Behind, 1)
+							}
+						}
+					}
+				}
 				atomic.AddInt64(&res.Lookups, 1)
 				switch kk, _ := classify(k.name, &gr); kk {
 				case "val":
@@ -227,7 +269,11 @@ func init() {
 				time.Sleep(5 * time.Millisecond)
 				return
 			}
-			var inFlight, last, calls int64
+			var inFlight, calls int64
+			pr := &probe{last: -1}
+			probesMu.Lock()
+			probes = append(probes, pr)
+			probesMu.Unlock()
 			m.RegisterXDSUpdateHandler(xdsresource.ClusterType, func(view map[string]xdsresource.Resource) {
 				if atomic.AddInt64(&inFlight, 1) > 1 {
 					atomic.AddInt64(&res.Overlap, 1)
@@ -242,17 +288,18 @@ func init() {
 						}
 					}
 				}
+				if v >= 0 {
+					if prev := atomic.LoadInt64(&pr.last); v < prev {
+						atomic.AddInt64(&res.Regress, 1)
+					} else {
+						atomic.StoreInt64(&pr.last, v)
+					}
+				}
 				if atomic.AddInt64(&calls, 1) == 1 {
 					time.Sleep(time.Millisecond) // handlers are user code and may be slow (here: the first run)
 				}
-				if v >= 0 {
-					if prev := atomic.LoadInt64(&last); v < prev {
-						atomic.AddInt64(&res.Regress, 1)
-					} else {
-						atomic.StoreInt64(&last, v)
-					}
-				}
 			})
+			atomic.StoreInt64(&pr.ready, 1)
 			// and one on the route tables, updated by two callers at once: its invocations must still be serialised
 			var inFlightR int64
 			m.RegisterXDSUpdateHandler(xdsresource.RouteConfigType, func(view map[string]xdsresource.Resource) {
@@ -284,6 +331,46 @@ func init() {
 		case <-fin:
 		case <-time.After(10 * time.Second):
 			res.Unfinished = true
+		}
+		if !res.Unfinished {
+			// the wire, once quiet: per stream and type the listed names never shrink (nothing is evicted here), and the last
+			// request of every subscribed type on the live stream lists exactly the interest set
+			m.VerifFlushMarker("stress-end")
+			if live := ads.stream(-1); live != nil {
+				live.waitMarker("stress-end", 3*time.Second)
+			}
+			for i := 0; i < ads.numStreams(); i++ {
+				prev := map[string]map[string]bool{}
+				for _, q := range ads.stream(i).sentCopy() {
+					cur := map[string]bool{}
+					for _, n := range q.ResourceNames {
+						cur[n] = true
+					}
+					for n := range prev[q.TypeUrl] {
+						if !cur[n] {
+							atomic.AddInt64(&res.Shrinks, 1)
+							break
+						}
+					}
+					prev[q.TypeUrl] = cur
+				}
+			}
+			if live := ads.stream(-1); live != nil {
+				lastOf := map[string][]string{}
+				for _, q := range live.sentCopy() {
+					lastOf[q.TypeUrl] = q.ResourceNames
+				}
+				for _, k := range kinds {
+					want, sub := m.VerifWatched(k.rt)
+					if !sub {
+						continue
+					}
+					got, ok := lastOf[typeURLs[k.name]]
+					if !ok || !sameSet(got, want) {
+						atomic.AddInt64(&res.WireStale, 1)
+					}
+				}
+			}
 		}
 		go m.Close()
 		return res, nil
